@@ -177,3 +177,6 @@ func rewriteFuncStubs(spec *Spec, tmp string, replace map[string]string) error {
 	}
 	return nil
 }
+
+// debugForkSites (env SYMGO_FORKSITES=1): print the function in which every two-way fork happens.
+var debugForkSites = os.Getenv("SYMGO_FORKSITES") != ""
